@@ -38,7 +38,7 @@ Your task: produce ONE realistic change to the source under {wt}/src/quansino (t
 
 Deliver, all inside {wt}/seed_out/ :
 1. patch.diff — `git -C {wt} diff` of your source change only (must apply to the unchanged tree with `git apply`).
-2. demo.py (or demo_test.py) — a small self-contained program that exits non-zero / fails WITH your change applied and exits 0 / passes WITHOUT it (run it both ways to confirm: `git stash` / `git stash pop`, or apply/revert the patch). It should use the public API of the package (ASE's EMT or LennardJones calculators are available offline) and print what it observed.
+2. demo.py (or demo_test.py) — a small self-contained program that exits non-zero / fails WITH your change applied and exits 0 / passes WITHOUT it (run it both ways to confirm: `git diff > seed_out/patch.diff; git apply -R seed_out/patch.diff` … `git apply seed_out/patch.diff`; never use `git stash` — the stash is shared between worktrees — and never pkill/killall). It should use the public API of the package (ASE's EMT or LennardJones calculators are available offline) and print what it observed.
 3. notes.md — which clause of the property the change breaks, what is needed for it to manifest, and the exact commands you ran with their outcome (test suite result with the change; demo result with and without the change).
 
 Confirm before finishing: (a) the full existing test suite passes with the change applied, (b) the demo fails with the change and passes without it. Leave the worktree with your change APPLIED to the source and the seed_out directory filled in. In your final answer give a 5-line summary (what you changed, which clause breaks, what it needs to manifest, test-suite result, demo results)."""
